@@ -8,7 +8,7 @@
    the hardware computes (this is the bit-exact differential tie); exactness of the integer -> float encoding
    inside floor/ceil. *)
 From Coq Require Import SpecFloat.
-From Octo Require Import NumFns NumFnsProofs LayoutProofs.
+From Octo Require Import NumFns NumFnsProofs LayoutProofs FloatProofs.
 
 (* + - * and unary - on Int and Duration: the result is the exact result wrapped to int64, it is an int64, and it
    is the exact result whenever that fits.  (Duration uses the same functions: both are int64 in Go.) *)
@@ -180,9 +180,53 @@ Theorem C13_layout_tuple_pinned_refuted : exists m v, is_panic (fix_layout_pinne
 Proof. exists (LMap None None (Some [lmap_empty])), (VTuple [VInt 1]). split; reflexivity. Qed.
 Print Assumptions C13_layout_tuple_pinned_refuted.
 
-(* floor / ceil: for a finite x = ±m·2^e with e < 0 the integer the model rounds to brackets x
-   (floor <= x < floor + 1, ceil - 1 < x <= ceil, scaled by 2^-e); for e >= 0 x is integral and returned as is.
-   PARTIAL: that this integer is re-encoded exactly as a float64 is part of the bit-exact tie, not of the theorem. *)
+(* floor / ceil, in full.  For a finite x = ±m·2^e decoded from the bit pattern a:
+   e < 0:  the integer z the model chooses brackets x (floor: z <= x < z+1; ceil: z-1 < x <= z; scaled by 2^-e), and the
+           bit pattern returned DECODES TO EXACTLY z ([sf_is_int]: a zero, or a normal number ±m'·2^e' with a 53-bit m',
+           -52 <= e' <= 0 and ±m' = z·2^-e'): Coq's binary_normalize is exact below 2^53 and the bits<->spec_float codec
+           gives back what it encoded;
+   e >= 0: x is integral and returned unchanged.
+   (NaN -> NaN, ±Inf and ±0 unchanged are definitional.)  What stays with the tie: that math.Floor/math.Ceil return these bits. *)
+Theorem C13_floor_ceil : forall a s m e, b2sf a = S754_finite s m e ->
+  (e < 0 ->
+     (sf_floor_int s m e * 2 ^ (- e) <= signed_m s m < (sf_floor_int s m e + 1) * 2 ^ (- e) /\
+      sf_is_int (b2sf (f_floor a)) (sf_floor_int s m e)) /\
+     ((sf_ceil_int s m e - 1) * 2 ^ (- e) < signed_m s m <= sf_ceil_int s m e * 2 ^ (- e) /\
+      sf_is_int (b2sf (f_ceil a)) (sf_ceil_int s m e))) /\
+  (0 <= e -> f_floor a = a mod two64 /\ f_ceil a = a mod two64).
+Proof. exact floor_ceil_full. Qed.
+Print Assumptions C13_floor_ceil.
+
+(* float(Int)-style encoding: every integer below 2^53 in magnitude is encoded exactly (used by floor/ceil; also the
+   exact range of float(Int)). *)
+Theorem C13_int_encoding_exact : forall z s, Z.abs z < 2 ^ 53 ->
+  sf_is_int (b2sf (sf2b (binary_normalize 53 1024 z 0 s))) z.
+Proof. exact int_encoding_round_trip. Qed.
+Print Assumptions C13_int_encoding_exact.
+
+(* int(Float): for a finite x = ±m·2^e whose truncation toward zero t fits int64 the result is t, where
+   |t| <= |x| < |t| + 1 and t has the sign of x (or is 0) for e < 0, and t = x for e >= 0; ±0 gives 0; whatever the
+   model returns is an int64.  NaN, ±Inf and |x| >= 2^63 are excluded: Go leaves the conversion implementation-defined
+   there (amd64 returns MinInt64, observed), the model makes no claim (MUnspec) beyond "no panic". *)
+Theorem C13_int_of_float : forall a,
+  (forall s m e, b2sf a = S754_finite s m e -> in_int64 (sf_trunc_int s m e) ->
+     f_to_int a = Some (sf_trunc_int s m e) /\
+     (e < 0 -> Z.abs (sf_trunc_int s m e) * 2 ^ (- e) <= Z.abs (signed_m s m) < (Z.abs (sf_trunc_int s m e) + 1) * 2 ^ (- e) /\
+               0 <= sf_trunc_int s m e * signed_m s m) /\
+     (0 <= e -> sf_trunc_int s m e = signed_m s m * 2 ^ e)) /\
+  (forall s, b2sf a = S754_zero s -> f_to_int a = Some 0) /\
+  (forall z, f_to_int a = Some z -> in_int64 z).
+Proof.
+  intro a. split; [|split].
+  - intros s m e H R. split; [apply f_to_int_finite; assumption|]. split.
+    + intro He. apply trunc_bracket. assumption.
+    + intro He. unfold sf_trunc_int. destruct (Z.leb_spec 0 e); [reflexivity|lia].
+  - intros s H. eapply f_to_int_zero. eassumption.
+  - apply f_to_int_some_range.
+Qed.
+Print Assumptions C13_int_of_float.
+
+(* the bracket alone (the earlier partial statement, kept under its old name for reference) *)
 Theorem C13_floor_ceil_partial : forall s m e,
   (e < 0 -> sf_floor_int s m e * 2 ^ (- e) <= signed_m s m < (sf_floor_int s m e + 1) * 2 ^ (- e) /\
             (sf_ceil_int s m e - 1) * 2 ^ (- e) < signed_m s m <= sf_ceil_int s m e * 2 ^ (- e)) /\
